@@ -73,6 +73,10 @@ pub enum Op {
     BoxedFold,
     BoxClone,
     BoxNew,
+    /// boxed map to a type of the same size but lower alignment (u64 -> [u16; 4], align(32) -> [u8; 32], u8 -> i8 as control)
+    BoxedMapNarrow,
+    /// boxed collect / boxed map of arrays around and above 1 MiB: (shape 0..5, exact size hint?)
+    LargeCollect(u8, bool),
 }
 
 #[derive(Clone, Copy, Debug, Serialize, Deserialize, PartialEq, Eq, Hash)]
@@ -235,6 +239,58 @@ fn run_op<T: Elem + Peek + Clone + Default, N: ArrayLength>(op: Op, arm_at_op: &
             drop(b);
             drop(c);
         }
+        Op::BoxedMapNarrow | Op::LargeCollect(..) => unreachable!(),
+    }
+}
+
+fn run_narrow<N: ArrayLength>(kind: Kind, arm_at_op: &mut dyn FnMut()) {
+    match kind {
+        Kind::U64 => {
+            let b: Box<GenericArray<u64, N>> = Box::new(GenericArray::generate(|i| i as u64));
+            arm_at_op();
+            drop(b.map(|x| {
+                registry::tick("boxed map closure");
+                [x as u16, 1, 2, 3]
+            }));
+        }
+        Kind::A32 => {
+            let b: Box<GenericArray<A32, N>> = Box::new(GenericArray::generate(|i| A32(i as u32)));
+            arm_at_op();
+            drop(b.map(|x| {
+                registry::tick("boxed map closure");
+                [x.0 as u8; 32]
+            }));
+        }
+        _ => {
+            let b: Box<GenericArray<u32, N>> = Box::new(GenericArray::generate(|i| i as u32));
+            arm_at_op();
+            drop(b.map(|x| {
+                registry::tick("boxed map closure");
+                x.to_le_bytes()
+            }));
+        }
+    }
+}
+
+fn run_large(shape: u8, exact: bool, arm_at_op: &mut dyn FnMut()) {
+    use generic_array::typenum::operator_aliases::{Add1, Prod};
+    use generic_array::typenum::{U1048576, U131072, U3, U65536};
+    fn go<T: Copy + Default + 'static, N: ArrayLength>(exact: bool, arm_at_op: &mut dyn FnMut(), f: fn(usize) -> T) {
+        arm_at_op();
+        let n = N::USIZE;
+        let b: Box<GenericArray<T, N>> = if exact { (0..n).map(f).collect() } else { (0..n).map(f).filter(|_| true).collect() };
+        // boxed map goes through the same boxed collect
+        let c = b.map(|x| x);
+        let r = GenericArray::<T, N>::try_boxed_from_iter((0..n + 1).map(f).filter(|_| true));
+        drop(r);
+        drop(c);
+    }
+    match shape {
+        0 => go::<u64, Add1<U131072>>(exact, arm_at_op, |i| i as u64),
+        1 => go::<u64, Prod<U65536, U3>>(exact, arm_at_op, |i| i as u64),
+        2 => go::<u8, Add1<U1048576>>(exact, arm_at_op, |i| i as u8),
+        3 => go::<u8, Prod<U1048576, U3>>(exact, arm_at_op, |i| i as u8),
+        _ => go::<u64, U131072>(exact, arm_at_op, |i| i as u64),
     }
 }
 
@@ -246,6 +302,12 @@ macro_rules! lens {
 const LENS: &[usize] = &[0, 1, 2, 3, 7, 8, 16, 33, 1024];
 
 fn dispatch(case: &Case, arm_at_op: &mut dyn FnMut()) {
+    if let Op::LargeCollect(shape, exact) = case.op {
+        return run_large(shape, exact, arm_at_op);
+    }
+    if case.op == Op::BoxedMapNarrow {
+        return lens!(case.n, N, run_narrow::<N>(case.kind, arm_at_op));
+    }
     match case.kind {
         Kind::U8 => lens!(case.n, N, run_op::<u8, N>(case.op, arm_at_op)),
         Kind::U64 => lens!(case.n, N, run_op::<u64, N>(case.op, arm_at_op)),
@@ -391,7 +453,7 @@ pub fn exec(case: &Case, acc: &mut Acc) -> Result<(), String> {
 }
 
 fn ops_for(n: usize) -> Vec<Op> {
-    let mut v = vec![Op::ArrToVec, Op::ArrToSlice, Op::BoxNew, Op::BoxIntoSlice, Op::BoxIntoVec, Op::DefaultBoxed, Op::BoxedGenerate, Op::BoxArrRepeat, Op::BoxedMap, Op::BoxedZip, Op::BoxedFold, Op::BoxClone];
+    let mut v = vec![Op::BoxedMapNarrow, Op::ArrToVec, Op::ArrToSlice, Op::BoxNew, Op::BoxIntoSlice, Op::BoxIntoVec, Op::DefaultBoxed, Op::BoxedGenerate, Op::BoxArrRepeat, Op::BoxedMap, Op::BoxedZip, Op::BoxedFold, Op::BoxClone];
     for d in [-1i8, 0, 1] {
         if n == 0 && d < 0 {
             continue;
@@ -439,6 +501,11 @@ pub fn main() {
             }
         }
     }
+    for shape in 0..5u8 {
+        for exact in [true, false] {
+            inst.push(Case { op: Op::LargeCollect(shape, exact), n: 0, kind: Kind::U64, fault: Fault::None });
+        }
+    }
     let thorough = args.thorough();
     let acc = engine::parallel(&args, PROP, |w, workers, acc| {
         for (i, c) in inst.iter().enumerate() {
@@ -464,7 +531,7 @@ pub fn main() {
                 acc.run(&ck, exec);
             }
             // an allocation failure at every allocation the operation performs (child processes)
-            let child_ok = c.n <= 8 || (thorough && c.n <= 33);
+            let child_ok = (c.n <= 8 || (thorough && c.n <= 33)) && !matches!(c.op, Op::LargeCollect(..));
             if child_ok && allocs > 0 && !matches!(c.kind, Kind::Tracked if c.n > 3) {
                 let mut k = 0u64;
                 loop {
@@ -502,7 +569,7 @@ pub fn main() {
         Report {
             prop: PROP,
             level: "fault_enumeration",
-            rule: "operation instance = (alloc-feature operation, N in {0,1,2,3,7,8,16,33,1024}, element kind u8 / u64 / () / GenericArray<u32,U0> (zero-sized by length) / drop-tracked with heap payload / 32-byte-aligned). Operations: TryFrom<Vec> and TryFrom<Box<[T]>> (lengths N-1, N, N+1; spare capacity 0/1/5), From<GenericArray> for Vec / Box<[T]>, Box::new, into_boxed_slice, into_vec (+ push to force a realloc of the handed-over block), try_from_boxed_slice, try_from_vec, Box<GenericArray>::into_iter partially consumed, try_boxed_from_iter / boxed collect (N-1, N, N+1 items, exact or unknown hint), default_boxed, boxed generate, box_arr! repeat form, boxed map / zip / fold, Box clone. \
+            rule: "operation instance = (alloc-feature operation, N in {0,1,2,3,7,8,16,33,1024}, element kind u8 / u64 / () / GenericArray<u32,U0> (zero-sized by length) / drop-tracked with heap payload / 32-byte-aligned). Operations: TryFrom<Vec> and TryFrom<Box<[T]>> (lengths N-1, N, N+1; spare capacity 0/1/5), From<GenericArray> for Vec / Box<[T]>, Box::new, into_boxed_slice, into_vec (+ push to force a realloc of the handed-over block), try_from_boxed_slice, try_from_vec, Box<GenericArray>::into_iter partially consumed, try_boxed_from_iter / boxed collect (N-1, N, N+1 items, exact or unknown hint), default_boxed, boxed generate, box_arr! repeat form, boxed map / zip / fold, boxed map to a same-size lower-alignment type, Box clone; boxed collect and boxed map of arrays of 1 MiB, 1 MiB + 1 element, 1.5 MiB and 3 MiB from exact and inexact sources. \
                    For each instance: a clean run with the whole life of inputs and results inside the recorded allocator window; a panic injected at every invocation of caller code (closure, Default, Clone, next()); an allocation failure injected at every allocation the operation performs (child process, k = 0,1,... until the operation completes). \
                    Oracle: no zero-size request; every dealloc/realloc carries the size and alignment the block was requested with; no block freed twice; no block allocated by the case live once all values are gone (also after the injected panic); on allocation failure the child must die through Rust's standard path (SIGABRT with 'memory allocation of N bytes failed'). \
                    non-trivial = at least one allocation happened and a panic fired, or an allocation failure was injected; distinct = distinct (instance, fault)",
